@@ -496,6 +496,9 @@ func checkRoundTrip(c *RoundTrip) (err error) {
 	if rv := rt.DoReverse(r.F, q); rv.Pattern != c.Pattern || rv.Tsr {
 		return fmt.Errorf("%sReverse returned %v", desc, rv)
 	}
+	if d := rt.IterReverseDiff(r.F, q.Host, path); d != "" {
+		return fmt.Errorf("%s%s", desc, d)
+	}
 	sv := r.ServeReq(q)
 	if len(sv.Hits) != 1 || sv.Hits[0].Kind != "route" || sv.Hits[0].Pattern != c.Pattern || !reflect.DeepEqual(sv.Hits[0].Params, got.Params) && len(got.Params) > 0 {
 		return fmt.Errorf("%sServeHTTP hits %+v, Lookup params %v", desc, sv.Hits, got.Params)
